@@ -133,7 +133,42 @@ def transform_direct(db, cx):
                           "general rotations do not survive the round trip")
     cx.floor("daughter transforms pushed by the UnitInput reader", n, 2)
 
+
+def background_overrides(db, cx):
+    """C19.3-read-overrides (seeded change c19f): the reader canonicalises exactly two fields of a
+    background volume after reading it - `logic` ("nowhere") and `bbox` (null), the values the
+    construction API emits for such volumes and the writer omits - and nothing else; in
+    particular not `flags`, which the writer stores and the navigator consumes."""
+    AUDITED = {"logic": "background volumes are 'nowhere' by construction (UnitProto emits exactly this logic)",
+               "bbox": "background volumes carry a null bounding box by construction"}
+    n = 0
+    for nm in db.find(r"^celeritas::from_json$"):
+        for f in db.get(nm):
+            ps = f.r.get("params", [])
+            if len(ps) != 2 or "VolumeInput" not in (ps[1].get("cty") or ps[1].get("ty") or ""):
+                continue
+            vpar = ps[1]["n"]
+            brs = f.branch_blocks(lambda c, _b: c.get("renum", "").endswith("ZOrder::background") and c.get("op") == "==")
+            cx.require(brs, "from_json(VolumeInput): test for a background volume not found")
+            for (b, i, e) in f.events("write"):
+                pth = e.get("path") or {}
+                if pth.get("root") != "p:" + vpar or not pth.get("chain"):
+                    continue
+                if not any(f.guarded_by_edge((b, i), br, f.cond_polarity_edge(br, True)) for br in brs):
+                    continue
+                fld = pth["chain"][0].split("::")[-1]
+                n += 1
+                cx.ob("C19.3-read-overrides", "background volume: reader overrides `%s` @%s" % (
+                    fld, short(e["loc"]).split(":", 1)[1]), fld in AUDITED,
+                    AUDITED.get(fld, "`%s = %s` replaces what was read; the writer stores this field" % (fld, e.get("rhs"))),
+                    short(e["loc"]),
+                    why="a field that the writer stores and the reader then replaces by a constant does "
+                        "not survive the round trip (flags: the simple-safety bit of a background volume "
+                        "with a cone or quadric face is lost, its safety becomes 0)")
+    cx.floor("post-read overrides of background volumes", n, 2)
+
 def run(db, cx):
+    background_overrides(db, cx)
     transform_direct(db, cx)
     acc = accessor_summary(db)
     tos = {}
